@@ -537,6 +537,10 @@ func c19Child(c *core.Ctx) {
 		fmt.Fprintln(os.Stderr, "bad job:", err)
 		os.Exit(3)
 	}
+	if j.Special == "badger-gc-after-close" {
+		gcAfterClose(j)
+		return
+	}
 	b, err := ioutil.ReadFile(j.Edges)
 	if err != nil {
 		fmt.Fprintln(os.Stderr, err)
@@ -546,10 +550,6 @@ func c19Child(c *core.Ctx) {
 	if err != nil {
 		fmt.Fprintln(os.Stderr, err)
 		os.Exit(3)
-	}
-	if j.Special == "badger-gc-after-close" {
-		gcAfterClose(j)
-		return
 	}
 	started := time.Now()
 	be, tb := kvBackends[j.Backend], kvTables[j.Table]
@@ -749,6 +749,12 @@ func runC19(c *core.Ctx) {
 			}
 			mu.Lock()
 			defer mu.Unlock()
+			if j.Special != "" && crash != "" && crash != "TIMEOUT" && !(strings.Contains(crash, "/repo/") || strings.Contains(crash, "linkchain")) {
+				mu.Unlock()
+				c.Infra("the close/reopen/lifetime scenario died outside the code under test: %s", crash)
+				mu.Lock()
+				return
+			}
 			if j.Special != "" && crash != "" && crash != "TIMEOUT" {
 				mu.Unlock()
 				c.Violate("crash/badger/gc-after-close", "a process that closed and reopened a Badger store died while it waited "+fmt.Sprint(j.WaitSec)+" s (the closed handle's value-log GC ticker fires after 10 minutes)",
